@@ -158,7 +158,12 @@ class MetadataManager:
 
             try:
                 # PHASE 1: Validation (inside lock to prevent races)
-                current = self.refresh()
+                validated_info = self._current_version_info()
+                current = (
+                    self._read_metadata_file(f"{self.metadata_path}/{validated_info[1]}")
+                    if validated_info is not None
+                    else None
+                )
 
                 # Check UUID consistency
                 if current and current.table_uuid != base_metadata.table_uuid:
@@ -200,6 +205,15 @@ class MetadataManager:
                         parsed = self._parse_hint_content(hint_bytes)
                         if parsed is not None:
                             filesystem_version, previous_metadata_file = parsed
+                            if validated_info is not None and parsed[1] != validated_info[1]:
+                                # The hint moved between the validation read and
+                                # this ETag read: the ETag belongs to a version we
+                                # never validated against. CAS-ing on it would
+                                # overwrite that commit.
+                                raise ConcurrentModificationException(
+                                    "Version hint changed between validation and "
+                                    "the conditional-write read; retrying"
+                                )
                     except FileNotFoundError:
                         hint_etag = None
                 if filesystem_version is None:
